@@ -137,7 +137,8 @@ theorem ack_complete_when_room (ops : List Op) (pn largest delay cap : Nat) (f :
   simp only [e, hhp, Bool.and_true, decide_eq_true_eq]
   omega
 
-example : (run [.rcv 0 true 1, .rcv 2 true 1]).has 2 = true := by decide
+example : (run [.rcv 0 true 1, .rcv 2 true 1]).has 2 = true ∧ 47 + 21 * (2 + 1 - (run [.rcv 0 true 1, .rcv 2 true 1]).offset) ≤ 110 ∧
+    (genAck (run [.rcv 0 true 1, .rcv 2 true 1]) 1 2 0 110).2 = .ok ⟨2, 0, 0, [(0, 0)]⟩ := by decide
 
 /-- The last range is pushed only if `capacity > size` (strictly): with capacity exactly the size of the complete
 frame the code leaves the last range out although it would fit (conservative off-by-one, replayed in `C10r` case 1). -/
